@@ -525,5 +525,5 @@ def run(ctx):
         out += res
     if ctx.tier == "thorough":
         from vlib import witness
-        out.append(witness.rule("C10", ['UnknownSerdeIsInert'], "C10.R10"))
+        out.append(witness.rule("C10", ['UnknownSerdeIsInert', 'SerdeListFormsAccepted'], "C10.R10"))
     return out
